@@ -27,6 +27,9 @@ func sbyte(i int) byte {
 	if b == '\n' {
 		b = 'n'
 	}
+	if b == 0xDE || b == 0xDF { // never the allocator's poison value
+		b = 0x5D
+	}
 	return b
 }
 
